@@ -367,7 +367,9 @@ Definition parse_entry (k v : yaml) (sub : option (out expr))
         end
     | YSeq vs =>
         let ue := match e with EMatch _ inner => inner | _ => e end in
-        do a <- seq_members ki ue acc0 vs subs;
+        (* fix D31: the cast flag of a str() list is set from the key, not by the first
+           string member *)
+        do a <- seq_members ki ue (if misc_is MStr misc then flag_cast acc0 else acc0) vs subs;
         finish_seq ki a
     | YTagged _ _ => Err EInvalidIdent
     end;
